@@ -140,3 +140,63 @@ class ProgRunner:
             "model_disagreements": len(self.model_mismatch),
             "impl_property_failures": len(self.impl_fail),
         }
+
+
+class LineRunner:
+    """Generic request/response correspondence: impl line must equal the model line (the model may append
+    ` spec=ok`, its self-check against the mathematical definition; `spec=MISMATCH` is reported)."""
+
+    def __init__(self, ctx, prop):
+        self.ctx, self.prop = ctx, prop
+        self.n = 0
+        self.distinct = set()
+        self.dist = {}
+        self.samples = []
+        self.mismatch = []
+        self.impl_fail = []
+        self.spec_checked = 0
+
+    def tag(self, t):
+        self.dist[t] = self.dist.get(t, 0) + 1
+
+    def run(self, cases, env=None, workers=8):
+        """cases: dict(line=..., tags=[..], expect=None|str (property-level expected impl output))"""
+        if not cases:
+            return
+        lines = [c["line"] for c in cases]
+        impl = self.ctx.impl(lines, env=env, workers=workers)
+        model = self.ctx.model(lines, workers=workers)
+        for c, io, mo in zip(cases, impl, model):
+            self.n += 1
+            self.distinct.add(c["line"])
+            for t in c.get("tags", []):
+                self.tag(t)
+            if len(self.samples) < 6 and self.n % 11 == 1:
+                self.samples.append({"request": c["line"][:240], "impl": io[:160], "model": mo[:160]})
+            base = mo.replace(" spec=ok", "").replace(" spec=MISMATCH", "")
+            if "spec=ok" in mo:
+                self.spec_checked += 1
+            if io.startswith("panic") or io.startswith("crash"):
+                if not c.get("panic_ok") or base != io:
+                    self.impl_fail.append((c, io, "implementation panicked"))
+                    continue
+            if "spec=MISMATCH" in mo:
+                self.mismatch.append((c, io, mo, "model disagrees with its own mathematical definition"))
+            if io != base:
+                self.mismatch.append((c, io, mo, "outputs differ"))
+            if c.get("expect") is not None and io != c["expect"]:
+                self.impl_fail.append((c, io, "property-level expectation is %s" % c["expect"][:120]))
+
+    def report(self):
+        ctx = self.ctx
+        for (c, io, why) in self.impl_fail[:3]:
+            ctx.violation(c.get("key") or ("impl:" + (c.get("tags") or ["x"])[0] + ":" + str(abs(hash(c["line"])) % 10**8)),
+                          {"kind": "implementation-vs-property", "why": why, "request": c["line"][:4000], "impl_output": io[:2000]})
+        if self.mismatch and not self.impl_fail:
+            c, io, mo, why = self.mismatch[0]
+            ctx.violation("correspondence:" + (c.get("tags") or ["x"])[0],
+                          {"kind": "model-vs-implementation", "why": why, "request": c["line"][:4000], "impl_output": io[:2000],
+                           "model_output": mo[:2000], "count": len(self.mismatch)}, no_input=True)
+        return {"evaluations": self.n, "distinct_nontrivial": len(self.distinct), "samples": self.samples,
+                "input_distribution": dict(sorted(self.dist.items())), "model_disagreements": len(self.mismatch),
+                "impl_property_failures": len(self.impl_fail), "model_self_checks_vs_definition": self.spec_checked}
